@@ -133,10 +133,141 @@ Proof.
   intro H. destruct (existsb f l) eqn:E; [reflexivity|]. apply find_none_existsb in E. congruence.
 Qed.
 
+(* suffix after the first element satisfying f *)
+Fixpoint after_first {A} (f : A -> bool) (l : list A) : option (list A) :=
+  match l with
+  | [] => None
+  | x :: l' => if f x then Some l' else after_first f l'
+  end.
+
+Fixpoint remove_first {A} (f : A -> bool) (l : list A) : list A :=
+  match l with
+  | [] => []
+  | x :: l' => if f x then l' else x :: remove_first f l'
+  end.
+
+Definition size_ok (sz : N) : Prop := (exists k, k <= 31 /\ sz = 2 ^ k) /\ LYHT_MIN_SIZE <= sz.
+
+Lemma pow2_le_31 k : k <= 31 -> 2 ^ k <= 2147483648.
+Proof. intro H. change 2147483648 with (2 ^ 31). apply N.pow_le_mono_r; lia. Qed.
+
+Lemma land_mask_lt h k : N.land h (2 ^ k - 1) < 2 ^ k.
+Proof.
+  rewrite N.sub_1_r, <- N.ones_equiv, N.land_ones. apply N.mod_lt. apply N.pow_nonzero. lia.
+Qed.
+
+Lemma concat_map_map {A B} (f : A -> B) (cs : list (list A)) :
+  concat (map (map f) cs) = map f (concat cs).
+Proof. induction cs as [|c cs IH]; cbn; [reflexivity|]. now rewrite map_app, IH. Qed.
+
+Lemma find_map {A B} (f : A -> B) (p : B -> bool) l :
+  find p (map f l) = option_map f (find (fun x => p (f x)) l).
+Proof. induction l as [|x l IH]; cbn; [reflexivity|]. destruct (p (f x)); auto. Qed.
+
+Lemma existsb_map {A B} (f : A -> B) (p : B -> bool) l : existsb p (map f l) = existsb (fun x => p (f x)) l.
+Proof. induction l as [|x l IH]; cbn; [reflexivity|]. now rewrite IH. Qed.
+
+Lemma after_first_map {A B} (f : A -> B) (p : B -> bool) l :
+  after_first p (map f l) = option_map (map f) (after_first (fun x => p (f x)) l).
+Proof. induction l as [|x l IH]; cbn; [reflexivity|]. destruct (p (f x)); auto. Qed.
+
+Lemma find_after_first {A} (p : A -> bool) l :
+  match find p l with
+  | Some x => exists l1 l2, l = l1 ++ x :: l2 /\ after_first p l = Some l2
+  | None => after_first p l = None
+  end.
+Proof.
+  induction l as [|y l IH]; cbn; [reflexivity|]. destruct (p y) eqn:E.
+  - exists [], l. auto.
+  - destruct (find p l) as [x|]; [|exact IH].
+    destruct IH as (l1 & l2 & -> & H). exists (y :: l1), l2. auto.
+Qed.
+
+Lemma Forall_app_r {A} (P : A -> Prop) l1 l2 : Forall P (l1 ++ l2) -> Forall P l2.
+Proof. intro H. apply Forall_app in H. tauto. Qed.
+
+Lemma Forall_app_l {A} (P : A -> Prop) l1 l2 : Forall P (l1 ++ l2) -> Forall P l1.
+Proof. intro H. apply Forall_app in H. tauto. Qed.
+
+Lemma concat_nodup_disj {A} (cs : list (list A)) b b' l l' j :
+  NoDup (concat cs) -> nth_error cs b = Some l -> nth_error cs b' = Some l' -> b <> b' ->
+  In j l -> In j l' -> False.
+Proof.
+  revert b b'; induction cs as [|c cs IH]; intros [|b] [|b'] Hn H1 H2 Hb Hj Hj'; cbn in *;
+    try discriminate; try congruence.
+  - inversion H1; subst. eapply NoDup_app_disj; [exact Hn|exact Hj|]. eapply In_concat_nth; eauto.
+  - inversion H2; subst. eapply NoDup_app_disj; [exact Hn|exact Hj'|]. eapply In_concat_nth; eauto.
+  - apply NoDup_app_r in Hn. eapply (IH b b'); eauto.
+Qed.
+
+Lemma nth_error_upd_eq' {A} (l : list A) n x y : nth_error l n = Some y -> nth_error (upd l n x) n = Some x.
+Proof. intro H. apply nth_error_upd_eq. apply nth_error_Some. congruence. Qed.
+
+Lemma Forall_perm {A} (P : A -> Prop) l l' : Permutation l l' -> Forall P l -> Forall P l'.
+Proof.
+  intros Hp H. rewrite Forall_forall in *. intros x Hx. apply H. eapply Permutation_in; [|exact Hx].
+  now apply Permutation_sym.
+Qed.
+
+Lemma map_map_ext_in {A B} (f g : A -> B) (cs : list (list A)) :
+  (forall j, In j (concat cs) -> f j = g j) -> map (map f) cs = map (map g) cs.
+Proof.
+  intro H. apply map_ext_in. intros c Hc. apply map_ext_in. intros j Hj. apply H.
+  apply in_concat. eauto.
+Qed.
+
+Lemma list_snoc_case {A} (l : list A) : l = [] \/ exists l' x, l = l' ++ [x].
+Proof.
+  destruct l as [|y l]; [now left|right].
+  destruct (@exists_last _ (y :: l)) as (l' & x & E); [discriminate|]. eauto.
+Qed.
+
+Lemma concat_repeat_nil {A} n : concat (repeat (@nil A) n) = [].
+Proof. induction n; cbn; auto. Qed.
+
+Lemma nth_error_repeat {A} (x y : A) n b : nth_error (repeat x n) b = Some y -> y = x.
+Proof. intro H. apply nth_error_In in H. now apply repeat_spec in H. Qed.
+
+Lemma remove_first_map_split {A B} (f : A -> B) (p : B -> bool) l1 x l2 :
+  forallb (fun y => negb (p (f y))) l1 = true -> p (f x) = true ->
+  remove_first p (map f (l1 ++ x :: l2)) = map f (l1 ++ l2).
+Proof.
+  induction l1 as [|y l1 IH]; cbn; intros H Hx.
+  - now rewrite Hx.
+  - apply andb_true_iff in H. destruct H as [Hy H]. apply negb_true_iff in Hy. rewrite Hy.
+    f_equal. auto.
+Qed.
+
+Lemma last_cons_ne {A} (x : A) l d : l <> [] -> last (x :: l) d = last l d.
+Proof. destruct l; [congruence|reflexivity]. Qed.
+
+Lemma size_ok_double sz : size_ok sz -> sz <= 1073741824 -> size_ok (new_size sz Enlarge).
+Proof.
+  intros [(k & Hk & ->) Hm] Hle. unfold new_size, U32.
+  assert (Hk30 : k <= 30).
+  { destruct (N.le_gt_cases k 30) as [H|H]; [exact H|]. exfalso.
+    assert (2 ^ 31 <= 2 ^ k) by (apply N.pow_le_mono_r; lia). change (2 ^ 31) with 2147483648 in H0. lia. }
+  assert (2 ^ k * 2 = 2 ^ (k + 1)) by (rewrite N.pow_add_r; reflexivity).
+  rewrite N.mod_small by lia. split; [|lia]. exists (k + 1). split; [lia|exact H].
+Qed.
+
+Lemma size_ok_half sz : size_ok sz -> LYHT_MIN_SIZE < sz -> size_ok (new_size sz Shrink).
+Proof.
+  intros [(k & Hk & ->) Hm] Hlt. unfold new_size, LYHT_MIN_SIZE in *.
+  assert (Hk4 : 4 <= k).
+  { destruct (N.le_gt_cases 4 k) as [H|H]; [exact H|]. exfalso.
+    assert (2 ^ k <= 2 ^ 3) by (apply N.pow_le_mono_r; lia). change (2 ^ 3) with 8 in H0. lia. }
+  replace k with (N.succ (k - 1)) by lia. rewrite N.pow_succ_r'.
+  rewrite N.mul_comm, N.div_mul by lia. split.
+  - exists (k - 1). split; [lia|reflexivity].
+  - unfold LYHT_MIN_SIZE. change 8 with (2 ^ 3). apply N.pow_le_mono_r; lia.
+Qed.
+
 (* ------------------------------------------------------------------------------------------ *)
 (* chains of records                                                                           *)
 (* ------------------------------------------------------------------------------------------ *)
 Section P.
+Set Default Proof Using "All".
 Variable V : Type.
 Variable vdef : V.
 Variable veq : bool -> V -> V -> bool.
@@ -308,8 +439,6 @@ Record Rep (t : ht) (cs : list (list N)) (fl : list N) : Prop := mkRep {
   rep_used : ht_used t = N.of_nat (length (concat cs))
 }.
 
-Lemma pow2_le_31 k : k <= 31 -> 2 ^ k <= 2147483648.
-Proof. intro H. change 2147483648 with (2 ^ 31). apply N.pow_le_mono_r; lia. Qed.
 
 Lemma Rep_size_bounds t cs fl : Rep t cs fl -> 1 <= ht_size t <= 2147483648.
 Proof.
@@ -318,10 +447,6 @@ Proof.
   - now apply pow2_le_31.
 Qed.
 
-Lemma land_mask_lt h k : N.land h (2 ^ k - 1) < 2 ^ k.
-Proof.
-  rewrite N.sub_1_r, <- N.ones_equiv, N.land_ones. apply N.mod_lt. apply N.pow_nonzero. lia.
-Qed.
 
 Lemma Rep_bucket t cs fl h : Rep t cs fl ->
   bucket t h = N.land h (ht_size t - 1) /\ bucket t h < ht_size t.
@@ -391,18 +516,6 @@ Definition a_pct (used size : N) : N := ((used * LYHT_HUNDRED_PERCENTAGE) mod U3
 Definition abs (t : ht) (cs : list (list N)) : amm :=
   mkamm (ht_resize t) (map (map (ent (ht_recs t))) cs).
 
-(* suffix after the first element satisfying f *)
-Fixpoint after_first {A} (f : A -> bool) (l : list A) : option (list A) :=
-  match l with
-  | [] => None
-  | x :: l' => if f x then Some l' else after_first f l'
-  end.
-
-Fixpoint remove_first {A} (f : A -> bool) (l : list A) : list A :=
-  match l with
-  | [] => []
-  | x :: l' => if f x then l' else x :: remove_first f l'
-  end.
 
 Definition a_find (m : amm) (eq : V -> bool) (h : N) : option (N * V) := find (ematch eq h) (a_row m h).
 
@@ -474,9 +587,6 @@ Definition a_remove (m : amm) (h : N) (v : V) : res (N * amm) :=
 Lemma abs_size t cs fl : Rep t cs fl -> a_size (abs t cs) = ht_size t.
 Proof. intro R. unfold a_size, abs. cbn. rewrite map_length, (rep_lc _ _ _ R). lia. Qed.
 
-Lemma concat_map_map {A B} (f : A -> B) (cs : list (list A)) :
-  concat (map (map f) cs) = map f (concat cs).
-Proof. induction cs as [|c cs IH]; cbn; [reflexivity|]. now rewrite map_app, IH. Qed.
 
 Lemma abs_used t cs fl : Rep t cs fl -> a_used (abs t cs) = ht_used t.
 Proof.
@@ -501,12 +611,6 @@ Proof.
   apply nth_error_nth. rewrite nth_error_map, H2. reflexivity.
 Qed.
 
-Lemma find_map {A B} (f : A -> B) (p : B -> bool) l :
-  find p (map f l) = option_map f (find (fun x => p (f x)) l).
-Proof. induction l as [|x l IH]; cbn; [reflexivity|]. destruct (p (f x)); auto. Qed.
-
-Lemma existsb_map {A B} (f : A -> B) (p : B -> bool) l : existsb p (map f l) = existsb (fun x => p (f x)) l.
-Proof. induction l as [|x l IH]; cbn; [reflexivity|]. now rewrite IH. Qed.
 
 (* lyht_find_rec() returns the first index of the bucket's chain whose record matches *)
 Lemma find_rec_sim t cs fl eq h : Rep t cs fl ->
@@ -539,21 +643,7 @@ Qed.
 (* ------------------------------------------------------------------------------------------ *)
 (* lyht_find_next / lyht_find_next_with_collision_cb                                           *)
 (* ------------------------------------------------------------------------------------------ *)
-Lemma after_first_map {A B} (f : A -> B) (p : B -> bool) l :
-  after_first p (map f l) = option_map (map f) (after_first (fun x => p (f x)) l).
-Proof. induction l as [|x l IH]; cbn; [reflexivity|]. destruct (p (f x)); auto. Qed.
 
-Lemma find_after_first {A} (p : A -> bool) l :
-  match find p l with
-  | Some x => exists l1 l2, l = l1 ++ x :: l2 /\ after_first p l = Some l2
-  | None => after_first p l = None
-  end.
-Proof.
-  induction l as [|y l IH]; cbn; [reflexivity|]. destruct (p y) eqn:E.
-  - exists [], l. auto.
-  - destruct (find p l) as [x|]; [|exact IH].
-    destruct IH as (l1 & l2 & -> & H). exists (y :: l1), l2. auto.
-Qed.
 
 Lemma is_chain_mid recs a l1 x l2 z :
   is_chain recs a (l1 ++ x :: l2) z -> exists n, nxt recs x = Some n /\ is_chain recs n l2 z.
@@ -562,11 +652,6 @@ Proof.
   destruct H as (_ & n & Hn & H). eauto.
 Qed.
 
-Lemma Forall_app_r {A} (P : A -> Prop) l1 l2 : Forall P (l1 ++ l2) -> Forall P l2.
-Proof. intro H. apply Forall_app in H. tauto. Qed.
-
-Lemma Forall_app_l {A} (P : A -> Prop) l1 l2 : Forall P (l1 ++ l2) -> Forall P l1.
-Proof. intro H. apply Forall_app in H. tauto. Qed.
 
 Theorem lyht_find_next_sim t cs fl cb h v : Rep t cs fl ->
   lyht_find_next veq t cb h v = Ok (a_find_next (abs t cs) cb h v).
@@ -612,32 +697,6 @@ Proof.
   - cbn. split; [reflexivity|]. exists z'. auto.
 Qed.
 
-Lemma concat_nodup_disj {A} (cs : list (list A)) b b' l l' j :
-  NoDup (concat cs) -> nth_error cs b = Some l -> nth_error cs b' = Some l' -> b <> b' ->
-  In j l -> In j l' -> False.
-Proof.
-  revert b b'; induction cs as [|c cs IH]; intros [|b] [|b'] Hn H1 H2 Hb Hj Hj'; cbn in *;
-    try discriminate; try congruence.
-  - inversion H1; subst. eapply NoDup_app_disj; [exact Hn|exact Hj|]. eapply In_concat_nth; eauto.
-  - inversion H2; subst. eapply NoDup_app_disj; [exact Hn|exact Hj'|]. eapply In_concat_nth; eauto.
-  - apply NoDup_app_r in Hn. eapply (IH b b'); eauto.
-Qed.
-
-Lemma nth_error_upd_eq' {A} (l : list A) n x y : nth_error l n = Some y -> nth_error (upd l n x) n = Some x.
-Proof. intro H. apply nth_error_upd_eq. apply nth_error_Some. congruence. Qed.
-
-Lemma Forall_perm {A} (P : A -> Prop) l l' : Permutation l l' -> Forall P l -> Forall P l'.
-Proof.
-  intros Hp H. rewrite Forall_forall in *. intros x Hx. apply H. eapply Permutation_in; [|exact Hx].
-  now apply Permutation_sym.
-Qed.
-
-Lemma map_map_ext_in {A B} (f g : A -> B) (cs : list (list A)) :
-  (forall j, In j (concat cs) -> f j = g j) -> map (map f) cs = map (map g) cs.
-Proof.
-  intro H. apply map_ext_in. intros c Hc. apply map_ext_in. intros j Hj. apply H.
-  apply in_concat. eauto.
-Qed.
 
 (* ------------------------------------------------------------------------------------------ *)
 (* insertion of a record (no resize)                                                           *)
@@ -712,11 +771,6 @@ Proof.
     f_equal. f_equal. apply map_ext_in. intros j Hj. auto.
 Qed.
 
-Lemma list_snoc_case {A} (l : list A) : l = [] \/ exists l' x, l = l' ++ [x].
-Proof.
-  destruct l as [|y l]; [now left|right].
-  destruct (@exists_last _ (y :: l)) as (l' & x & E); [discriminate|]. eauto.
-Qed.
 
 Lemma is_chain_head_in recs a l z : l <> [] -> is_chain recs a l z -> In a l.
 Proof. destruct l as [|i l]; [congruence|]. cbn. intros _ (-> & _). now left. Qed.
@@ -975,11 +1029,6 @@ Proof.
     destruct (Rep_chain_ne _ _ _ _ _ R H2) as (Hne & Hlen & _). auto.
 Qed.
 
-Lemma concat_repeat_nil {A} n : concat (repeat (@nil A) n) = [].
-Proof. induction n; cbn; auto. Qed.
-
-Lemma nth_error_repeat {A} (x y : A) n b : nth_error (repeat x n) b = Some y -> y = x.
-Proof. intro H. apply nth_error_In in H. now apply repeat_spec in H. Qed.
 
 Lemma init_recs_nxt sz k : (k < N.to_nat sz)%nat ->
   nxt (init_recs vdef sz) (N.of_nat k) = Some (N.of_nat (S k)).
@@ -998,7 +1047,6 @@ Proof.
     replace (k + S m)%nat with (S k + m)%nat by lia. apply IH. lia.
 Qed.
 
-Definition size_ok (sz : N) : Prop := (exists k, k <= 31 /\ sz = 2 ^ k) /\ LYHT_MIN_SIZE <= sz.
 
 Lemma init_tab_Rep sz rz : size_ok sz ->
   Rep (init_tab vdef sz rz) (repeat [] (N.to_nat sz)) (map N.of_nat (seq 0 (N.to_nat sz))) /\
@@ -1049,27 +1097,6 @@ Proof.
   change (a_rz (abs t cs)) with (ht_resize t). rewrite <- A0. exact (reinsert_sim check _ _ _ _ R0).
 Qed.
 
-Lemma size_ok_double sz : size_ok sz -> sz <= 1073741824 -> size_ok (new_size sz Enlarge).
-Proof.
-  intros [(k & Hk & ->) Hm] Hle. unfold new_size, U32.
-  assert (Hk30 : k <= 30).
-  { destruct (N.le_gt_cases k 30) as [H|H]; [exact H|]. exfalso.
-    assert (2 ^ 31 <= 2 ^ k) by (apply N.pow_le_mono_r; lia). change (2 ^ 31) with 2147483648 in H0. lia. }
-  assert (2 ^ k * 2 = 2 ^ (k + 1)) by (rewrite N.pow_add_r; reflexivity).
-  rewrite N.mod_small by lia. split; [|lia]. exists (k + 1). split; [lia|exact H].
-Qed.
-
-Lemma size_ok_half sz : size_ok sz -> LYHT_MIN_SIZE < sz -> size_ok (new_size sz Shrink).
-Proof.
-  intros [(k & Hk & ->) Hm] Hlt. unfold new_size, LYHT_MIN_SIZE in *.
-  assert (Hk4 : 4 <= k).
-  { destruct (N.le_gt_cases 4 k) as [H|H]; [exact H|]. exfalso.
-    assert (2 ^ k <= 2 ^ 3) by (apply N.pow_le_mono_r; lia). change (2 ^ 3) with 8 in H0. lia. }
-  replace k with (N.succ (k - 1)) by lia. rewrite N.pow_succ_r'.
-  rewrite N.mul_comm, N.div_mul by lia. split.
-  - exists (k - 1). split; [lia|reflexivity].
-  - unfold LYHT_MIN_SIZE. change 8 with (2 ^ 3). apply N.pow_le_mono_r; lia.
-Qed.
 
 Lemma Rep_size_ok t cs fl : Rep t cs fl -> size_ok (ht_size t).
 Proof. intro R. split; [apply (rep_pow _ _ _ R)|apply (rep_min _ _ _ R)]. Qed.
@@ -1086,18 +1113,7 @@ Qed.
 (* ------------------------------------------------------------------------------------------ *)
 (* lyht_remove                                                                                 *)
 (* ------------------------------------------------------------------------------------------ *)
-Lemma remove_first_map_split {A B} (f : A -> B) (p : B -> bool) l1 x l2 :
-  forallb (fun y => negb (p (f y))) l1 = true -> p (f x) = true ->
-  remove_first p (map f (l1 ++ x :: l2)) = map f (l1 ++ l2).
-Proof.
-  induction l1 as [|y l1 IH]; cbn; intros H Hx.
-  - now rewrite Hx.
-  - apply andb_true_iff in H. destruct H as [Hy H]. apply negb_true_iff in Hy. rewrite Hy.
-    f_equal. auto.
-Qed.
 
-Lemma last_cons_ne {A} (x : A) l d : l <> [] -> last (x :: l) d = last l d.
-Proof. destruct l; [congruence|reflexivity]. Qed.
 
 Lemma is_chain_norec_nil recs a l : is_chain recs a l NOREC -> Forall (fun i => i <> NOREC) l ->
   (a = NOREC <-> l = []).
@@ -1328,3 +1344,851 @@ Proof.
     + rewrite nxt_upd_eq by now rewrite Hl1'. reflexivity.
 Qed.
 End P.
+
+
+Arguments mkamm {V}.
+Arguments a_rz {V}.
+Arguments a_bk {V}.
+Arguments a_size {V}.
+Arguments a_used {V}.
+Arguments a_bucket {V}.
+Arguments a_row {V}.
+Arguments ematch {V}.
+Arguments a_find {V}.
+Arguments a_lyht_find {V}.
+Arguments a_find_next {V}.
+Arguments a_insert_with {V}.
+Arguments a_reinsert {V}.
+Arguments a_insert_inner {V}.
+Arguments a_resize {V}.
+Arguments a_insert {V}.
+Arguments a_remove {V}.
+Arguments abs {V}.
+Arguments Rep {V}.
+Arguments rsim {V}.
+Arguments isim {V}.
+Arguments msim {V}.
+Arguments next_result {V}.
+
+(* ------------------------------------------------------------------------------------------ *)
+(* Properties of the abstract functions themselves (no arena any more)                          *)
+(* ------------------------------------------------------------------------------------------ *)
+Section A.
+Set Default Proof Using "All".
+Variable V : Type.
+Variable veq : bool -> V -> V -> bool.
+Notation amm := (amm V).
+
+Definition row_ok (sz : N) (b : nat) (row : list (N * V)) : Prop :=
+  Forall (fun e => N.land (fst e) (sz - 1) = N.of_nat b) row.
+
+(* shape of an abstract table: what the abstraction of a table satisfying Rep always satisfies *)
+Record AShape (m : amm) : Prop := mkAShape {
+  as_size : size_ok (a_size m);
+  as_rows : forall b row, nth_error (a_bk m) b = Some row -> row_ok (a_size m) b row;
+  as_used : a_used m <= a_size m
+}.
+
+Definition no_wrap (m : amm) : Prop := a_size m <= 33554432.      (* 2^25: used * 100 fits uint32_t *)
+
+Lemma a_pct_small used size : used <= size -> size <= 33554432 -> 0 < size ->
+  a_pct used size = used * 100 / size.
+Proof.
+  intros H1 H2 H3. unfold a_pct, LYHT_HUNDRED_PERCENTAGE, U32. rewrite N.mod_small; [reflexivity|lia].
+Qed.
+
+Lemma div_lt_iff a b c : 0 < b -> (a / b < c <-> a < c * b).
+Proof.
+  intro Hb. split; intro H.
+  - destruct (N.lt_ge_cases a (c * b)) as [H1|H1]; [exact H1|]. exfalso.
+    assert (c <= a / b) by (apply N.div_le_lower_bound; lia). lia.
+  - apply N.div_lt_upper_bound; lia.
+Qed.
+
+Lemma size_ok_pos sz : size_ok sz -> 8 <= sz.
+Proof. intros [_ H]. exact H. Qed.
+
+Lemma a_size_upd (m : amm) rz b row : a_size (mkamm rz (upd (a_bk m) b row)) = a_size m.
+Proof. unfold a_size. cbn. now rewrite upd_length. Qed.
+
+Lemma a_bucket_lt (m : amm) h : size_ok (a_size m) -> (a_bucket m h < length (a_bk m))%nat.
+Proof.
+  intros [(k & Hk & Hs) Hm]. unfold a_bucket.
+  pose proof (land_mask_lt h k) as H. rewrite <- Hs in H. unfold a_size in *. lia.
+Qed.
+
+Lemma a_row_nth (m : amm) h : size_ok (a_size m) -> nth_error (a_bk m) (a_bucket m h) = Some (a_row m h).
+Proof.
+  intro Hs. unfold a_row. apply List.nth_error_nth'. now apply a_bucket_lt.
+Qed.
+
+Lemma a_used_append (m : amm) rz h v : size_ok (a_size m) ->
+  a_used (mkamm rz (upd (a_bk m) (a_bucket m h) (a_row m h ++ [(h, v)]))) = a_used m + 1.
+Proof.
+  intro Hs. unfold a_used. cbn [a_bk].
+  rewrite (Permutation_length (concat_upd_perm _ _ _ (h, v) (a_row_nth m h Hs))). cbn [length]. lia.
+Qed.
+
+Lemma AShape_append (m : amm) rz h v : AShape m -> a_used m < a_size m ->
+  AShape (mkamm rz (upd (a_bk m) (a_bucket m h) (a_row m h ++ [(h, v)]))).
+Proof.
+  intros [Hs Hr Hu] Hlt. constructor.
+  - now rewrite a_size_upd.
+  - rewrite a_size_upd. cbn [a_bk]. intros b row Hb.
+    destruct (Nat.eq_dec b (a_bucket m h)) as [->|Hne].
+    + rewrite (nth_error_upd_eq' _ _ _ _ (a_row_nth m h Hs)) in Hb. inversion Hb; subst.
+      apply Forall_app. split; [apply Hr; now apply a_row_nth|].
+      constructor; [|constructor]. cbn [fst]. unfold a_bucket. lia.
+    + rewrite nth_error_upd_neq in Hb by auto. now apply Hr.
+  - rewrite a_size_upd, a_used_append by exact Hs. lia.
+Qed.
+
+Definition rzrel (m m' : amm) : Prop := a_rz m' = a_rz m \/ (a_rz m = 1 /\ a_rz m' = 2).
+
+Lemma rzrel_refl m : rzrel m m.
+Proof. now left. Qed.
+
+Lemma rzrel_trans m1 m2 m3 : rzrel m1 m2 -> rzrel m2 m3 -> rzrel m1 m3.
+Proof. unfold rzrel. intros [H1|[H1 H1']] [H2|[H2 H2']]; try (left; congruence); right; split; congruence. Qed.
+
+(* one insertion of the re-insertion loop: it never asks for a nested resize *)
+Lemma a_insert_inner_shape (m : amm) check h v :
+  AShape m -> no_wrap m -> (a_used m + 1) * 100 < 75 * a_size m ->
+  match a_insert_inner veq m check h v with
+  | Ok (c, mv, m') =>
+      (c = LY_ERR_EEXIST /\ m' = m /\ check = true /\
+       exists e, find (ematch (veq true v) h) (a_row m h) = Some e) \/
+      (c = LY_ERR_SUCCESS /\ mv = v /\ (check = true -> find (ematch (veq true v) h) (a_row m h) = None) /\
+       a_bk m' = upd (a_bk m) (a_bucket m h) (a_row m h ++ [(h, v)]) /\ rzrel m m')
+  | Err e => False
+  end.
+Proof.
+  intros S W Hlf. unfold a_insert_inner, a_insert_with.
+  pose proof (size_ok_pos _ (as_size _ S)) as Hpos.
+  destruct check.
+  - destruct (find _ _) as [e|] eqn:Ef; [left; eauto 6|]. revert Ef. generalize (find (ematch (veq true v) h) (a_row m h)).
+    intros o ->. 
+    assert (Hlt : a_used m < a_size m) by lia.
+    apply N.ltb_lt in Hlt as Hlt'. rewrite Hlt'. cbn [negb].
+    destruct (a_rz m =? 0) eqn:E0; [right; cbn; repeat split; auto using rzrel_refl; now left|].
+    rewrite a_pct_small by (unfold no_wrap in W; lia).
+    assert (Hr : (a_used m + 1) * 100 / a_size m < 75) by (apply div_lt_iff; lia).
+    unfold LYHT_ENLARGE_PERCENTAGE.
+    assert (E75 : (75 <=? (a_used m + 1) * 100 / a_size m) = false) by (apply N.leb_gt; exact Hr).
+    rewrite E75, andb_false_r. right. cbn [a_bk a_rz]. repeat split; auto. unfold rzrel. cbn [a_rz].
+    destruct (a_rz m =? 1) eqn:E1; cbn [andb]; [|now left].
+    destruct (LYHT_FIRST_SHRINK_PERCENTAGE <=? _); [right; split; [now apply N.eqb_eq|reflexivity]|now left].
+  - assert (Hlt : a_used m < a_size m) by lia.
+    apply N.ltb_lt in Hlt as Hlt'. rewrite Hlt'. cbn [negb].
+    destruct (a_rz m =? 0) eqn:E0; [right; cbn; repeat split; auto using rzrel_refl; try discriminate; now left|].
+    rewrite a_pct_small by (unfold no_wrap in W; lia).
+    assert (Hr : (a_used m + 1) * 100 / a_size m < 75) by (apply div_lt_iff; lia).
+    unfold LYHT_ENLARGE_PERCENTAGE.
+    assert (E75 : (75 <=? (a_used m + 1) * 100 / a_size m) = false) by (apply N.leb_gt; exact Hr).
+    rewrite E75, andb_false_r. right. cbn [a_bk a_rz]. repeat split; auto; try discriminate. unfold rzrel. cbn [a_rz].
+    destruct (a_rz m =? 1) eqn:E1; cbn [andb]; [|now left].
+    destruct (LYHT_FIRST_SHRINK_PERCENTAGE <=? _); [right; split; [now apply N.eqb_eq|reflexivity]|now left].
+Qed.
+
+Lemma AShape_ext (m m' : amm) : a_bk m' = a_bk m -> AShape m -> AShape m'.
+Proof.
+  intros E [H1 H2 H3]. unfold a_size, a_used in *. constructor; unfold a_size, a_used; rewrite E; auto.
+Qed.
+
+(* why a checked re-insertion stops: some element es[i] finds an equal earlier element *)
+Definition dup_witness (base es : list (N * V)) : Prop :=
+  exists es1 h v es2 e0, es = es1 ++ (h, v) :: es2 /\ In e0 (base ++ es1) /\
+    fst e0 = h /\ veq true v (snd e0) = true.
+
+(* the re-insertion loop of lyht_resize: it can only stop at assert(!ret) *)
+Lemma a_reinsert_shape check : forall es (m : amm),
+  AShape m -> no_wrap m -> (a_used m + N.of_nat (length es)) * 100 < 75 * a_size m ->
+  match a_reinsert (fun m0 => a_insert_inner veq m0 check) m es with
+  | Ok m' => AShape m' /\ a_size m' = a_size m /\ a_used m' = a_used m + N.of_nat (length es) /\
+             Permutation (concat (a_bk m')) (concat (a_bk m) ++ es) /\ rzrel m m'
+  | Err e => e = E_ABORT /\ check = true /\ dup_witness (concat (a_bk m)) es
+  end.
+Proof.
+  induction es as [|[h v] es IH]; intros m S W Hlf; cbn [a_reinsert].
+  - cbn [length] in *. rewrite app_nil_r. split; [exact S|]. split; [reflexivity|]. split; [lia|].
+    split; [reflexivity|apply rzrel_refl].
+  - cbn [length fst snd] in *.
+    pose proof (a_insert_inner_shape m check h v S W ltac:(lia)) as Hi.
+    destruct (a_insert_inner veq m check h v) as [[[c mv] m1]|e]; [|contradiction]. cbn [bind fst snd].
+    destruct Hi as [(-> & _ & Hck & e0 & He0)|(-> & _ & _ & Hbk & Hrz)].
+    { cbn. split; [reflexivity|]. split; [exact Hck|]. exists [], h, v, es, e0. split; [reflexivity|].
+      apply find_some in He0. destruct He0 as [Hin Hm]. unfold ematch in Hm. apply andb_true_iff in Hm.
+      destruct Hm as [Hm1 Hm2]. apply N.eqb_eq in Hm1. rewrite app_nil_r. split; [|auto].
+      eapply In_concat_nth; [apply (a_row_nth m h (as_size _ S))|exact Hin]. }
+    cbn [N.eqb LY_ERR_SUCCESS].
+    assert (S1 : AShape m1).
+    { apply (AShape_ext (mkamm (a_rz m1) (upd (a_bk m) (a_bucket m h) (a_row m h ++ [(h, v)])))); [exact Hbk|].
+      apply AShape_append; [exact S|lia]. }
+    assert (Hsz : a_size m1 = a_size m) by (unfold a_size; rewrite Hbk; now rewrite upd_length).
+    assert (Hus : a_used m1 = a_used m + 1).
+    { unfold a_used at 1. rewrite Hbk. apply (a_used_append m (a_rz m) h v (as_size _ S)). }
+    specialize (IH m1 S1). unfold no_wrap in *. rewrite Hsz, Hus in IH. specialize (IH W ltac:(lia)).
+    assert (Hp1 : Permutation (concat (a_bk m1)) ((h, v) :: concat (a_bk m))).
+    { rewrite Hbk. apply (concat_upd_perm _ _ _ (h, v) (a_row_nth m h (as_size _ S))). }
+    destruct (a_reinsert _ m1 es) as [m'|e].
+    2:{ destruct IH as (-> & Hck & es1 & h' & v' & es2 & e0 & -> & Hin & Hf & Hv).
+        split; [reflexivity|]. split; [exact Hck|]. exists ((h, v) :: es1), h', v', es2, e0.
+        split; [reflexivity|]. split; [|auto]. apply in_app_or in Hin. destruct Hin as [Hin|Hin].
+        - apply (Permutation_in _ Hp1) in Hin. destruct Hin as [<-|Hin].
+          + apply in_or_app. right. now left.
+          + apply in_or_app. now left.
+        - apply in_or_app. right. now right. }
+    destruct IH as (S' & Hs' & Hu' & Hp' & Hrz'). split; [exact S'|]. split; [exact Hs'|]. split; [|split].
+    + lia.
+    + rewrite Hp', Hbk. rewrite (concat_upd_perm _ _ _ (h, v) (a_row_nth m h (as_size _ S))).
+      cbn. apply Permutation_middle.
+    + eapply rzrel_trans; eauto.
+Qed.
+
+Lemma AShape_empty rz sz : size_ok sz -> AShape (mkamm rz (repeat [] (N.to_nat sz))) /\
+  a_size (mkamm rz (repeat (@nil (N * V)) (N.to_nat sz))) = sz /\ a_used (mkamm rz (repeat (@nil (N * V)) (N.to_nat sz))) = 0.
+Proof.
+  intro Hs. assert (E : a_size (mkamm rz (repeat (@nil (N * V)) (N.to_nat sz))) = sz).
+  { unfold a_size. cbn. rewrite repeat_length. lia. }
+  assert (E0 : a_used (mkamm rz (repeat (@nil (N * V)) (N.to_nat sz))) = 0).
+  { unfold a_used. cbn. now rewrite concat_repeat_nil. }
+  split; [|auto]. constructor.
+  - now rewrite E.
+  - cbn [a_bk]. intros b row H. apply nth_error_repeat in H. subst. constructor.
+  - rewrite E0. lia.
+Qed.
+
+Lemma a_resize_shape (m : amm) op check :
+  size_ok (new_size (a_size m) op) -> new_size (a_size m) op <= 33554432 ->
+  a_used m * 100 < 75 * new_size (a_size m) op ->
+  match a_resize veq m op check with
+  | Ok m' => AShape m' /\ a_size m' = new_size (a_size m) op /\ a_used m' = a_used m /\
+             Permutation (concat (a_bk m')) (concat (a_bk m)) /\ rzrel m m'
+  | Err e => e = E_ABORT /\ check = true /\ dup_witness [] (concat (a_bk m))
+  end.
+Proof.
+  intros Hs Hw Hlf. unfold a_resize.
+  destruct (AShape_empty (a_rz m) _ Hs) as (S0 & E0 & U0).
+  pose proof (a_reinsert_shape check (concat (a_bk m)) _ S0) as H.
+  unfold no_wrap in H. rewrite E0, U0 in H. specialize (H Hw).
+  assert (Hl : N.of_nat (length (concat (a_bk m))) = a_used m) by reflexivity.
+  rewrite Hl in H. specialize (H ltac:(lia)).
+  destruct (a_reinsert _ _ _) as [m'|e].
+  2:{ cbn [a_bk] in H. now rewrite concat_repeat_nil in H. }
+  destruct H as (S' & Hs' & Hu' & Hp' & Hrz'). split; [exact S'|]. split; [exact Hs'|]. split; [lia|].
+  split; [|exact Hrz']. cbn [a_bk] in Hp'. now rewrite concat_repeat_nil in Hp'.
+Qed.
+
+(* the table after the record has been linked in, before the enlarge test (resize <> 0) *)
+Definition ins_m1 (m : amm) (h : N) (v : V) : amm :=
+  mkamm (if (a_rz m =? 1) && (LYHT_FIRST_SHRINK_PERCENTAGE <=? a_pct (a_used m + 1) (a_size m)) then 2 else a_rz m)
+        (upd (a_bk m) (a_bucket m h) (a_row m h ++ [(h, v)])).
+
+Definition ins_find (m : amm) (check : bool) (h : N) (v : V) : option (N * V) :=
+  if check then find (ematch (veq true v) h) (a_row m h) else None.
+
+Lemma a_insert_shape (m : amm) check wm h v :
+  AShape m -> a_size m <= 16777216 -> a_rz m <= 2 ->
+  match a_insert veq m check wm h v with
+  | Ok (c, mv, m') =>
+      AShape m' /\ rzrel m m' /\
+      ((c = LY_ERR_EEXIST /\ m' = m /\ exists e, ins_find m check h v = Some e /\ mv = snd e) \/
+       (c = LY_ERR_SUCCESS /\ ins_find m check h v = None /\ a_used m' = a_used m + 1 /\
+        Permutation (concat (a_bk m')) ((h, v) :: concat (a_bk m)) /\
+        (a_size m' = a_size m \/ (a_size m' = 2 * a_size m /\ 75 * a_size m <= (a_used m + 1) * 100)) /\
+        (a_rz m <> 0 -> a_used m' * 100 < 75 * a_size m') /\
+        (mv = v \/ (wm = true /\ exists e, find (ematch (veq false v) h) (a_row m' h) = Some e /\ mv = snd e))))
+  | Err e =>
+      e = E_ABORT /\ ins_find m check h v = None /\
+      (a_size m <= a_used m \/
+       (check = true /\ dup_witness [] (concat (a_bk (ins_m1 m h v)))) \/
+       (exists m3, AShape m3 /\ Permutation (concat (a_bk m3)) ((h, v) :: concat (a_bk m)) /\ wm = true /\
+                   find (ematch (veq false v) h) (a_row m3 h) = None))
+  end.
+Proof.
+  intros S W Hrz. unfold a_insert, a_insert_with. fold (ins_find m check h v).
+  pose proof (size_ok_pos _ (as_size _ S)) as Hpos. unfold LYHT_MIN_SIZE in Hpos.
+  destruct (ins_find m check h v) as [e|] eqn:Efind.
+  { split; [exact S|]. split; [apply rzrel_refl|]. left. eauto. }
+  destruct (a_used m <? a_size m) eqn:Hlt; cbn [negb].
+  2:{ apply N.ltb_ge in Hlt. auto. }
+  apply N.ltb_lt in Hlt.
+  pose proof (concat_upd_perm _ _ _ (h, v) (a_row_nth m h (as_size _ S))) as Hperm.
+  destruct (a_rz m =? 0) eqn:E0.
+  { split; [now apply AShape_append|]. split; [now left|]. right. split; [reflexivity|]. split; [reflexivity|].
+    split; [now apply a_used_append, (as_size _ S)|]. split; [exact Hperm|].
+    split; [left; apply a_size_upd|]. split; [|now left]. apply N.eqb_eq in E0. congruence. }
+  apply N.eqb_neq in E0.
+  fold (ins_m1 m h v).
+  assert (Hsz1 : a_size (ins_m1 m h v) = a_size m) by apply a_size_upd.
+  assert (Hus1 : a_used (ins_m1 m h v) = a_used m + 1) by (apply a_used_append, (as_size _ S)).
+  assert (S1 : AShape (ins_m1 m h v)) by now apply AShape_append.
+  assert (Hrz1 : rzrel m (ins_m1 m h v)).
+  { unfold rzrel, ins_m1. cbn [a_rz]. destruct (a_rz m =? 1) eqn:E1; cbn [andb]; [|now left].
+    destruct (LYHT_FIRST_SHRINK_PERCENTAGE <=? _); [right; split; [now apply N.eqb_eq|reflexivity]|now left]. }
+  change (if (a_rz m =? 1) && (LYHT_FIRST_SHRINK_PERCENTAGE <=? a_pct (a_used m + 1) (a_size m)) then 2 else a_rz m)
+    with (a_rz (ins_m1 m h v)).
+  assert (Hpct : a_pct (a_used m + 1) (a_size m) = (a_used m + 1) * 100 / a_size m) by (apply a_pct_small; lia).
+  destruct ((a_rz (ins_m1 m h v) =? 2) && (LYHT_ENLARGE_PERCENTAGE <=? a_pct (a_used m + 1) (a_size m))) eqn:Eg.
+  - (* enlarge *)
+    apply andb_true_iff in Eg. destruct Eg as [Eg2 Eg75]. apply N.eqb_eq in Eg2.
+    rewrite Hpct in Eg75. unfold LYHT_ENLARGE_PERCENTAGE in Eg75. apply N.leb_le in Eg75.
+    assert (H75 : 75 * a_size m <= (a_used m + 1) * 100).
+    { pose proof (N.mul_div_le ((a_used m + 1) * 100) (a_size m) ltac:(lia)). nia. }
+    assert (Hns : new_size (a_size (ins_m1 m h v)) Enlarge = 2 * a_size m).
+    { rewrite Hsz1. unfold new_size, U32. rewrite N.mod_small; lia. }
+    pose proof (a_resize_shape (ins_m1 m h v) Enlarge check) as Hr. rewrite Hns, Hus1 in Hr.
+    assert (Hso : size_ok (2 * a_size m)).
+    { rewrite <- Hns, Hsz1. apply size_ok_double; [apply (as_size _ S)|lia]. }
+    specialize (Hr Hso ltac:(lia) ltac:(lia)).
+    destruct (a_resize veq (ins_m1 m h v) Enlarge check) as [m3|e3]; cbn [bind].
+    2:{ destruct Hr as (-> & Hck & Hdw). split; [reflexivity|]. split; [reflexivity|]. right. left. split; assumption. }
+    destruct Hr as (S3 & Hs3 & Hu3 & Hp3 & Hrz3).
+    assert (Hrz13 : rzrel m m3) by (eapply rzrel_trans; eauto).
+    assert (C1 : a_used m3 = a_used m + 1) by lia.
+    assert (C2 : Permutation (concat (a_bk m3)) ((h, v) :: concat (a_bk m))) by (rewrite Hp3; exact Hperm).
+    assert (C3 : a_size m3 = a_size m \/ (a_size m3 = 2 * a_size m /\ 75 * a_size m <= (a_used m + 1) * 100))
+      by (right; split; [exact Hs3|exact H75]).
+    assert (C4 : a_rz m <> 0 -> a_used m3 * 100 < 75 * a_size m3) by (intros _; rewrite Hu3, Hs3; lia).
+    destruct wm.
+    + destruct (find (ematch (veq false v) h) (a_row m3 h)) as [e|] eqn:Ef3.
+      * split; [exact S3|]. split; [exact Hrz13|]. right. split; [reflexivity|]. split; [reflexivity|].
+        split; [exact C1|]. split; [exact C2|]. split; [exact C3|]. split; [exact C4|]. right. eauto.
+      * split; [reflexivity|]. split; [reflexivity|]. right. right. exists m3. auto.
+    + split; [exact S3|]. split; [exact Hrz13|]. right. split; [reflexivity|]. split; [reflexivity|].
+      split; [exact C1|]. split; [exact C2|]. split; [exact C3|]. split; [exact C4|]. now left.
+  - (* no resize *)
+    split; [exact S1|]. split; [exact Hrz1|]. right. split; [reflexivity|]. split; [reflexivity|].
+    split; [exact Hus1|]. split; [exact Hperm|]. split; [left; exact Hsz1|]. split; [|now left].
+    intros _. rewrite Hus1, Hsz1.
+    assert (Hr : (a_used m + 1) * 100 / a_size m < 75).
+    { rewrite Hpct in Eg. unfold LYHT_ENLARGE_PERCENTAGE in Eg.
+      apply andb_false_iff in Eg. destruct Eg as [Eg|Eg]; [|now apply N.leb_gt in Eg].
+      apply N.eqb_neq in Eg. unfold ins_m1 in Eg. cbn [a_rz] in Eg. rewrite Hpct in Eg.
+      unfold LYHT_FIRST_SHRINK_PERCENTAGE in Eg.
+      destruct (a_rz m =? 1) eqn:E1; cbn [andb] in Eg.
+      - destruct (50 <=? (a_used m + 1) * 100 / a_size m) eqn:E50; [congruence|]. apply N.leb_gt in E50. lia.
+      - apply N.eqb_neq in E1. lia. }
+    apply div_lt_iff in Hr; lia.
+Qed.
+
+Lemma remove_first_split {A} (p : A -> bool) l1 x l2 :
+  forallb (fun y => negb (p y)) l1 = true -> p x = true -> remove_first p (l1 ++ x :: l2) = l1 ++ l2.
+Proof.
+  intros H Hx. pose proof (remove_first_map_split (fun a => a) p l1 x l2 H Hx) as E.
+  now rewrite !map_id in E.
+Qed.
+
+Lemma size_ok_even sz : size_ok sz -> sz = 2 * (sz / 2).
+Proof.
+  intros [(k & Hk & ->) Hm]. unfold LYHT_MIN_SIZE in Hm.
+  assert (Hk1 : 1 <= k).
+  { destruct (N.le_gt_cases 1 k) as [H|H]; [exact H|]. assert (k = 0) by lia. subst. cbn in Hm. lia. }
+  replace k with (N.succ (k - 1)) at 1 2 by lia. rewrite N.pow_succ_r'.
+  rewrite (N.mul_comm 2), N.div_mul by lia. lia.
+Qed.
+
+Lemma AShape_remove (m : amm) rz b r1 e r2 : AShape m -> nth_error (a_bk m) b = Some (r1 ++ e :: r2) ->
+  AShape (mkamm rz (upd (a_bk m) b (r1 ++ r2))) /\
+  a_used m = a_used (mkamm rz (upd (a_bk m) b (r1 ++ r2))) + 1 /\
+  Permutation (e :: concat (upd (a_bk m) b (r1 ++ r2))) (concat (a_bk m)).
+Proof.
+  intros [Hs Hr Hu] Hb. pose proof (concat_upd_remove_perm _ _ _ _ _ Hb) as Hp.
+  assert (Hus : a_used m = a_used (mkamm rz (upd (a_bk m) b (r1 ++ r2))) + 1).
+  { unfold a_used. cbn [a_bk]. rewrite <- (Permutation_length Hp). cbn [length]. lia. }
+  split; [|split; [exact Hus|exact Hp]]. constructor.
+  - now rewrite a_size_upd.
+  - rewrite a_size_upd. cbn [a_bk]. intros b' row Hb'. destruct (Nat.eq_dec b' b) as [->|Hne].
+    + rewrite (nth_error_upd_eq' _ _ _ _ Hb) in Hb'. inversion Hb'; subst.
+      specialize (Hr _ _ Hb). unfold row_ok in *. apply Forall_app in Hr. destruct Hr as [H1 H2].
+      inversion H2; subst. apply Forall_app. auto.
+    + rewrite nth_error_upd_neq in Hb' by auto. now apply Hr.
+  - rewrite a_size_upd. lia.
+Qed.
+
+Lemma a_remove_shape (m : amm) h v : AShape m -> no_wrap m ->
+  match a_remove veq m h v with
+  | Ok (c, m') =>
+      AShape m' /\ rzrel m m' /\
+      ((c = LY_ERR_ENOTFOUND /\ m' = m /\ find (ematch (veq true v) h) (a_row m h) = None) \/
+       (c = LY_ERR_SUCCESS /\ a_used m = a_used m' + 1 /\ a_size m' <= a_size m /\
+        (exists e, find (ematch (veq true v) h) (a_row m h) = Some e /\
+                   Permutation (e :: concat (a_bk m')) (concat (a_bk m))) /\
+        (a_used m * 100 < 75 * a_size m -> a_used m' * 100 < 75 * a_size m')))
+  | Err e =>
+      e = E_ABORT /\ exists e0 r1 r2, a_row m h = r1 ++ e0 :: r2 /\
+        find (ematch (veq true v) h) (a_row m h) = Some e0 /\
+        dup_witness [] (concat (upd (a_bk m) (a_bucket m h) (r1 ++ r2)))
+  end.
+Proof.
+  intros S W. unfold a_remove. unfold no_wrap in W.
+  pose proof (size_ok_pos _ (as_size _ S)) as Hpos. unfold LYHT_MIN_SIZE in Hpos.
+  destruct (find (ematch (veq true v) h) (a_row m h)) as [e|] eqn:Ef.
+  2:{ apply find_none_existsb in Ef as Ex. rewrite Ex. cbn [negb]. split; [exact S|]. split; [apply rzrel_refl|]. now left. }
+  rewrite (find_some_existsb _ _ _ Ef). cbn [negb].
+  destruct (find_split _ _ _ Ef) as (r1 & r2 & Hrow & Hpe & Hr1).
+  assert (Hrf : remove_first (ematch (veq true v) h) (a_row m h) = r1 ++ r2)
+    by (rewrite Hrow; now apply remove_first_split).
+  rewrite Hrf.
+  pose proof (a_row_nth m h (as_size _ S)) as Hnth. rewrite Hrow in Hnth.
+  set (m1 := mkamm (a_rz m) (upd (a_bk m) (a_bucket m h) (r1 ++ r2))).
+  destruct (AShape_remove m (a_rz m) _ r1 e r2 S Hnth) as (S1 & Hu1 & Hp1). fold m1 in S1, Hu1.
+  assert (Hs1 : a_size m1 = a_size m) by apply a_size_upd.
+  pose proof (as_used _ S) as Hus.
+  rewrite a_pct_small by lia.
+  destruct ((a_rz m =? 2) && ((a_used m - 1) * 100 / a_size m <? LYHT_SHRINK_PERCENTAGE) && (LYHT_MIN_SIZE <? a_size m)) eqn:Ec.
+  - apply andb_true_iff in Ec. destruct Ec as [Ec Emin]. apply andb_true_iff in Ec. destruct Ec as [E2 E25].
+    apply N.ltb_lt in E25, Emin. unfold LYHT_SHRINK_PERCENTAGE in E25.
+    apply div_lt_iff in E25; [|lia].
+    pose proof (size_ok_even _ (as_size _ S)) as Hev.
+    assert (Hns : new_size (a_size m1) Shrink = a_size m / 2) by (rewrite Hs1; reflexivity).
+    pose proof (a_resize_shape m1 Shrink true) as Hr. rewrite Hns in Hr.
+    assert (Hso : size_ok (a_size m / 2)).
+    { change (a_size m / 2) with (new_size (a_size m) Shrink). apply size_ok_half; [apply (as_size _ S)|exact Emin]. }
+    specialize (Hr Hso ltac:(lia) ltac:(lia)).
+    destruct (a_resize veq m1 Shrink true) as [m2|e2] eqn:Er; cbn [bind].
+    + destruct Hr as (S2 & Hs2 & Hu2 & Hp2 & Hrz2). split; [exact S2|]. split.
+      { eapply rzrel_trans; [|exact Hrz2]. now left. }
+      right. split; [reflexivity|]. split; [lia|]. split; [lia|]. split.
+      { exists e. split; [reflexivity|]. rewrite Hp2. exact Hp1. }
+      intros _. rewrite Hu2, Hs2. lia.
+    + destruct Hr as (-> & _ & Hdw). split; [reflexivity|]. exists e, r1, r2. split; [exact Hrow|]. split; [reflexivity|exact Hdw].
+  - split; [exact S1|]. split; [now left|]. right. split; [reflexivity|]. split; [exact Hu1|]. split; [lia|]. split.
+    { exists e. split; [reflexivity|exact Hp1]. }
+    intro Hlf. rewrite Hs1. lia.
+Qed.
+
+(* ------------------------------------------------------------------------------------------ *)
+(* callbacks that decide equality of a key (dictionary: the string; t_ht driver: the value):    *)
+(* on tables without two records of the same (hash, key) no assertion can fail                  *)
+(* ------------------------------------------------------------------------------------------ *)
+Section AK.
+Variable K : Type.
+Variable key : V -> K.
+Hypothesis Hkey : forall md a b, veq md a b = true <-> key a = key b.
+Set Default Proof Using "All".
+
+Definition ekey (e : N * V) : N * K := (fst e, key (snd e)).
+Definition ADist (m : amm) : Prop := NoDup (map ekey (concat (a_bk m))).
+(* load factor left behind by every insert / remove when resizing is enabled *)
+Definition LF (m : amm) : Prop := 1 <= a_rz m <= 2 /\ a_used m * 100 < 75 * a_size m.
+
+Lemma ematch_key md v h e : ematch (veq md v) h e = true <-> ekey e = (h, key v).
+Proof.
+  unfold ematch, ekey. rewrite andb_true_iff, N.eqb_eq, Hkey. split.
+  - intros [-> ->]. reflexivity.
+  - intro E. inversion E. auto.
+Qed.
+
+Lemma row_find_some (m : amm) md h v e : AShape m ->
+  find (ematch (veq md v) h) (a_row m h) = Some e -> In e (concat (a_bk m)) /\ ekey e = (h, key v).
+Proof.
+  intros S Hf. apply find_some in Hf. destruct Hf as [Hin Hm]. split; [|now apply ematch_key in Hm].
+  eapply In_concat_nth; [apply (a_row_nth m h (as_size _ S))|exact Hin].
+Qed.
+
+Lemma concat_in_row (m : amm) e : AShape m -> In e (concat (a_bk m)) -> In e (a_row m (fst e)).
+Proof.
+  intros S Hin. apply in_concat in Hin. destruct Hin as (row & Hrow & He).
+  apply In_nth_error in Hrow. destruct Hrow as (b & Hb).
+  pose proof (as_rows _ S _ _ Hb) as Hr. unfold row_ok in Hr. rewrite Forall_forall in Hr.
+  specialize (Hr _ He).
+  assert (Eb : a_bucket m (fst e) = b) by (unfold a_bucket; rewrite Hr; lia).
+  pose proof (a_row_nth m (fst e) (as_size _ S)) as Hn. rewrite Eb, Hb in Hn. inversion Hn. now subst.
+Qed.
+
+Lemma row_find_none (m : amm) md h v : AShape m ->
+  find (ematch (veq md v) h) (a_row m h) = None ->
+  forall e, In e (concat (a_bk m)) -> ekey e <> (h, key v).
+Proof.
+  intros S Hf e Hin Hk. pose proof (concat_in_row m e S Hin) as Hr.
+  assert (fst e = h) by (unfold ekey in Hk; now inversion Hk). subst h.
+  eapply find_none in Hf; [|exact Hr]. apply (proj2 (ematch_key md v (fst e) e)) in Hk. rewrite Hk in Hf. discriminate.
+Qed.
+
+Lemma dup_witness_keyed base es : NoDup (map ekey (base ++ es)) -> dup_witness base es -> False.
+Proof.
+  intros Hnd (es1 & h & v & es2 & e0 & -> & Hin & Hf & Hv).
+  assert (Hk : ekey e0 = ekey (h, v)).
+  { unfold ekey. cbn [fst snd]. f_equal; [exact Hf|]. symmetry. now apply (Hkey true). }
+  rewrite app_assoc, map_app in Hnd. cbn [map] in Hnd.
+  eapply NoDup_app_disj; [exact Hnd| |left; reflexivity].
+  rewrite <- Hk. now apply in_map.
+Qed.
+
+Lemma ADist_perm (m m' : amm) : Permutation (concat (a_bk m')) (concat (a_bk m)) -> ADist m -> ADist m'.
+Proof.
+  unfold ADist. intros Hp Hd. eapply Permutation_NoDup; [|exact Hd].
+  apply Permutation_map, Permutation_sym, Hp.
+Qed.
+
+Lemma NoDup_ekey_cons h v l : NoDup (map ekey l) -> (forall e, In e l -> ekey e <> (h, key v)) ->
+  NoDup (map ekey ((h, v) :: l)).
+Proof.
+  intros Hd Hf. cbn [map]. constructor; [|exact Hd]. intro Hin. apply in_map_iff in Hin.
+  destruct Hin as (e & He & Hin). now apply (Hf e Hin).
+Qed.
+
+Lemma a_resize_keyed (m : amm) op check :
+  size_ok (new_size (a_size m) op) -> new_size (a_size m) op <= 33554432 ->
+  a_used m * 100 < 75 * new_size (a_size m) op -> ADist m ->
+  exists m', a_resize veq m op check = Ok m' /\ AShape m' /\ a_size m' = new_size (a_size m) op /\
+             a_used m' = a_used m /\ Permutation (concat (a_bk m')) (concat (a_bk m)) /\ rzrel m m' /\ ADist m'.
+Proof.
+  intros H1 H2 H3 Hd. pose proof (a_resize_shape m op check H1 H2 H3) as H.
+  destruct (a_resize veq m op check) as [m'|e].
+  - destruct H as (S' & Hs' & Hu' & Hp' & Hrz'). exists m'. repeat (split; [assumption|]).
+    split; [reflexivity|]. repeat (split; [assumption|]). eapply ADist_perm; eauto.
+  - destruct H as (_ & _ & Hdw). exfalso. eapply (dup_witness_keyed [] _); [exact Hd|exact Hdw].
+Qed.
+
+Lemma LF_used_lt (m : amm) : LF m -> a_used m < a_size m.
+Proof. intros [_ H]. lia. Qed.
+
+Theorem a_insert_keyed (m : amm) wm h v :
+  AShape m -> a_size m <= 16777216 -> LF m -> ADist m ->
+  exists c m', a_insert veq m true wm h v = Ok (c, (if c =? LY_ERR_EEXIST then
+                 match find (ematch (veq true v) h) (a_row m h) with Some e => snd e | None => v end else v), m') /\
+    AShape m' /\ LF m' /\ ADist m' /\
+    (a_size m' = a_size m \/ (a_size m' = 2 * a_size m /\ 75 * a_size m <= (a_used m + 1) * 100)) /\
+    ((c = LY_ERR_EEXIST /\ m' = m /\
+      exists e, find (ematch (veq true v) h) (a_row m h) = Some e /\ In e (concat (a_bk m)) /\ ekey e = (h, key v)) \/
+     (c = LY_ERR_SUCCESS /\ (forall e, In e (concat (a_bk m)) -> ekey e <> (h, key v)) /\
+      a_used m' = a_used m + 1 /\ Permutation (concat (a_bk m')) ((h, v) :: concat (a_bk m)))).
+Proof.
+  intros S W Hlf Hd. destruct Hlf as [Hrz Hlf].
+  pose proof (a_insert_shape m true wm h v S W ltac:(lia)) as H. unfold ins_find in H.
+  destruct (a_insert veq m true wm h v) as [[[c mv] m']|e].
+  - destruct H as (S' & Hrz' & [(-> & -> & e & Hf & ->)|(-> & Hf & Hu' & Hp' & Hsz' & Hlf' & Hmv)]).
+    + exists LY_ERR_EEXIST, m. rewrite Hf. cbn [N.eqb LY_ERR_EEXIST Pos.eqb].
+      split; [reflexivity|]. split; [exact S|]. split; [split; assumption|]. split; [exact Hd|].
+      split; [now left|]. left. split; [reflexivity|]. split; [reflexivity|].
+      destruct (row_find_some m true h v e S Hf). eauto.
+    + pose proof (row_find_none m true h v S Hf) as Hfresh.
+      assert (Hd' : ADist m').
+      { unfold ADist. eapply Permutation_NoDup; [apply Permutation_map, Permutation_sym, Hp'|].
+        now apply NoDup_ekey_cons. }
+      assert (mv = v).
+      { destruct Hmv as [->|(_ & e & Hf3 & ->)]; [reflexivity|].
+        destruct (row_find_some m' false h v e S' Hf3) as [Hin Hk].
+        apply (Permutation_in _ Hp') in Hin. destruct Hin as [<-|Hin]; [reflexivity|].
+        exfalso. now apply (Hfresh e). }
+      subst mv. exists LY_ERR_SUCCESS, m'. cbn [N.eqb LY_ERR_SUCCESS LY_ERR_EEXIST].
+      split; [reflexivity|]. split; [exact S'|]. split.
+      { split; [|apply Hlf'; lia]. destruct Hrz' as [->|[E1 ->]]; lia. }
+      split; [exact Hd'|]. split; [exact Hsz'|]. right. auto.
+  - exfalso. destruct H as (_ & Hf & [Hfull|[(_ & Hdw)|(m3 & S3 & Hp3 & _ & Hf3)]]).
+    + lia.
+    + pose proof (row_find_none m true h v S Hf) as Hfresh.
+      eapply (dup_witness_keyed [] _); [|exact Hdw]. cbn [app].
+      eapply Permutation_NoDup.
+      * apply Permutation_map, Permutation_sym.
+        unfold ins_m1. cbn [a_bk]. apply (concat_upd_perm _ _ _ (h, v) (a_row_nth m h (as_size _ S))).
+      * now apply NoDup_ekey_cons.
+    + eapply (row_find_none m3 false h v S3 Hf3 (h, v)); [|reflexivity].
+      eapply Permutation_in; [apply Permutation_sym, Hp3|now left].
+Qed.
+
+Theorem a_remove_keyed (m : amm) h v :
+  AShape m -> no_wrap m -> LF m -> ADist m ->
+  exists c m', a_remove veq m h v = Ok (c, m') /\ AShape m' /\ LF m' /\ ADist m' /\ a_size m' <= a_size m /\
+    ((c = LY_ERR_ENOTFOUND /\ m' = m /\ (forall e, In e (concat (a_bk m)) -> ekey e <> (h, key v))) \/
+     (c = LY_ERR_SUCCESS /\ a_used m = a_used m' + 1 /\
+      exists e, In e (concat (a_bk m)) /\ ekey e = (h, key v) /\
+                Permutation (e :: concat (a_bk m')) (concat (a_bk m)))).
+Proof.
+  intros S W [Hrz Hlf] Hd. pose proof (a_remove_shape m h v S W) as H.
+  destruct (a_remove veq m h v) as [[c m']|e].
+  - destruct H as (S' & Hrz' & [(-> & -> & Hf)|(-> & Hu' & Hsz' & (e & Hf & Hp') & Hlf')]).
+    + exists LY_ERR_ENOTFOUND, m. split; [reflexivity|]. split; [exact S|]. split; [split; assumption|].
+      split; [exact Hd|]. split; [lia|]. left. split; [reflexivity|]. split; [reflexivity|].
+      now apply (row_find_none m true h v S).
+    + exists LY_ERR_SUCCESS, m'. split; [reflexivity|]. split; [exact S'|]. split.
+      { split; [|now apply Hlf']. destruct Hrz' as [->|[E1 ->]]; lia. }
+      split.
+      { unfold ADist in *. pose proof (Permutation_NoDup (Permutation_map ekey (Permutation_sym Hp')) Hd) as Hn.
+        cbn [map] in Hn. now inversion Hn. }
+      split; [exact Hsz'|]. right. split; [reflexivity|]. split; [exact Hu'|].
+      destruct (row_find_some m true h v e S Hf) as [Hin Hk]. eauto.
+  - exfalso. destruct H as (_ & e0 & r1 & r2 & Hrow & Hf & Hdw).
+    eapply (dup_witness_keyed [] _); [|exact Hdw]. cbn [app].
+    pose proof (a_row_nth m h (as_size _ S)) as Hn. rewrite Hrow in Hn.
+    pose proof (concat_upd_remove_perm _ _ _ _ _ Hn) as Hp.
+    pose proof (Permutation_NoDup (Permutation_map ekey (Permutation_sym Hp)) Hd) as Hn'.
+    cbn [map] in Hn'. now inversion Hn'.
+Qed.
+End AK.
+Set Default Proof Using "All".
+End A.
+
+
+Arguments AShape {V}.
+Arguments no_wrap {V}.
+Arguments rzrel {V}.
+Arguments ins_find {V}.
+Arguments ins_m1 {V}.
+Arguments dup_witness {V}.
+Arguments ekey {V K}.
+Arguments ADist {V K}.
+Arguments LF {V}.
+Arguments row_ok {V}.
+
+(* ------------------------------------------------------------------------------------------ *)
+(* link: the abstraction of a table satisfying Rep has the shape the abstract lemmas ask for    *)
+(* ------------------------------------------------------------------------------------------ *)
+Section L.
+Variable V : Type.
+Variable vdef : V.
+Variable veq : bool -> V -> V -> bool.
+
+Lemma Rep_AShape (t : ht V) cs fl : Rep vdef t cs fl -> AShape (abs vdef t cs).
+Proof.
+  intro R. constructor.
+  - rewrite (abs_size _ _ veq _ _ _ R). apply (Rep_size_ok _ _ veq _ _ _ R).
+  - rewrite (abs_size _ _ veq _ _ _ R). unfold abs. cbn [a_bk]. intros b row Hb.
+    rewrite nth_error_map in Hb. destruct (nth_error cs b) as [l|] eqn:El; [|discriminate].
+    cbn in Hb. inversion Hb; subst row.
+    assert (Hblt : (b < N.to_nat (ht_size t))%nat).
+    { rewrite <- (rep_lc _ _ _ _ _ R). apply nth_error_Some. congruence. }
+    destruct (Rep_nth _ _ veq _ _ _ b R Hblt) as (hl & l' & H1 & H2 & (_ & _ & H3)).
+    assert (l' = l) by congruence. subst l'.
+    unfold row_ok. apply Forall_map. exact H3.
+  - rewrite (abs_used _ _ veq _ _ _ R), (abs_size _ _ veq _ _ _ R). apply (Rep_used_le _ _ veq _ _ _ R).
+Qed.
+
+(* every record index is in exactly one chain or in the free list *)
+Lemma Rep_partition (t : ht V) cs fl : Rep vdef t cs fl ->
+  NoDup (concat cs ++ fl) /\ forall i, i < ht_size t <-> In i (concat cs ++ fl).
+Proof.
+  intro R. split; [apply (rep_nodup _ _ _ _ _ R)|]. intro i. split.
+  - intro Hi.
+    assert (Hincl : incl (map N.of_nat (seq 0 (N.to_nat (ht_size t)))) (concat cs ++ fl)).
+    { apply NoDup_length_incl.
+      - apply (rep_nodup _ _ _ _ _ R).
+      - rewrite map_length, seq_length, (rep_all _ _ _ _ _ R). lia.
+      - intros j Hj. pose proof (rep_lt _ _ _ _ _ R) as Hlt. rewrite Forall_forall in Hlt.
+        specialize (Hlt _ Hj). apply in_map_iff. exists (N.to_nat j). split; [lia|]. apply in_seq. lia. }
+    apply Hincl. apply in_map_iff. exists (N.to_nat i). split; [lia|]. apply in_seq. lia.
+  - intro Hi. pose proof (rep_lt _ _ _ _ _ R) as Hlt. rewrite Forall_forall in Hlt. now apply Hlt.
+Qed.
+End L.
+
+(* ------------------------------------------------------------------------------------------ *)
+(* operation sequences on the instance driven by impl/t_ht.c (values N, callback = equality)    *)
+(* ------------------------------------------------------------------------------------------ *)
+Lemma nveq_key md a b : nveq md a b = true <-> (fun x : N => x) a = (fun x : N => x) b.
+Proof. unfold nveq. apply N.eqb_eq. Qed.
+
+(* the abstract counterpart of nht_step; lyht_dup is not an operation of the abstract table
+   (it does not preserve the representation invariant, see nht_dup_breaks_table) *)
+Definition a_nstep (m : amm N) (o : hop) : res (N * option N * amm N) :=
+  match o with
+  | OpIns h v => bind (a_insert nveq m true true h v) (fun x => Ok (fst (fst x), Some (snd (fst x)), snd x))
+  | OpInsNC h v => bind (a_insert nveq m false true h v) (fun x => Ok (fst (fst x), Some (snd (fst x)), snd x))
+  | OpRem h v => bind (a_remove nveq m h v) (fun x => Ok (fst x, None, snd x))
+  | OpFind h v => Ok (a_lyht_find nveq m h v, m)
+  | OpNext h v => Ok (a_find_next nveq m None h v, m)
+  | OpNextCol h v => Ok (a_find_next nveq m (Some ncol) h v, m)
+  | OpDup => Err E_ABORT
+  end.
+
+Fixpoint a_nrun (m : amm N) (ops : list hop) (acc : list (N * option N))
+  : list (N * option N) * res (amm N) :=
+  match ops with
+  | [] => (rev acc, Ok m)
+  | o :: ops' =>
+      match a_nstep m o with
+      | Ok x => a_nrun (snd x) ops' (fst x :: acc)
+      | Err e => (rev acc, Err e)
+      end
+  end.
+
+Definition not_dup (o : hop) : bool := match o with OpDup => false | _ => true end.
+Definition checked_op (o : hop) : bool :=
+  match o with OpDup | OpInsNC _ _ => false | _ => true end.
+
+Lemma nht_insert_step_sim t cs fl check h v : Rep 0 t cs fl -> ht_size t <= 1073741824 ->
+  match bind (a_insert nveq (abs 0 t cs) check true h v)
+             (fun x => Ok (fst (fst x), Some (snd (fst x)), snd x)) with
+  | Ok (x, m') => exists t' cs' fl',
+      bind (insert 0 nveq t check true h v) (fun x =>
+        bind (rd (ht_recs (snd x)) (snd (fst x))) (fun r => Ok (fst (fst x), Some (r_val r), snd x)))
+        = Ok (x, t') /\ Rep 0 t' cs' fl' /\ abs 0 t' cs' = m'
+  | Err e =>
+      bind (insert 0 nveq t check true h v) (fun x =>
+        bind (rd (ht_recs (snd x)) (snd (fst x))) (fun r => Ok (fst (fst x), Some (r_val r), snd x))) = Err e
+  end.
+Proof.
+  intros R Hle. pose proof (insert_sim N 0 nveq t cs fl check true h v R Hle) as Hs.
+  destruct (a_insert nveq (abs 0 t cs) check true h v) as [[[c mv] m']|e]; cbn [isim bind fst snd] in *.
+  - destruct Hs as (i & t' & cs' & fl' & -> & R' & A' & Hi). cbn [bind fst snd].
+    destruct (Hi eq_refl) as [Hin Hv].
+    assert (Hlt : (N.to_nat i < length (ht_recs t'))%nat).
+    { pose proof (Rep_in_cs_lt N 0 nveq _ _ _ _ R' Hin). rewrite (rep_lr _ _ _ _ _ R'). lia. }
+    destruct (rd_lt _ _ Hlt) as (r & Hr). rewrite Hr. cbn [bind].
+    rewrite (rd_ent N 0 nveq _ _ _ Hr) in Hv. cbn [snd] in Hv. subst mv.
+    exists t', cs', fl'. auto.
+  - rewrite Hs. reflexivity.
+Qed.
+
+Lemma nht_step_sim t cs fl o : Rep 0 t cs fl -> ht_size t <= 1073741824 -> not_dup o = true ->
+  match a_nstep (abs 0 t cs) o with
+  | Ok (x, m') => exists t' cs' fl', nht_step t o = Ok (x, t') /\ Rep 0 t' cs' fl' /\ abs 0 t' cs' = m'
+  | Err e => nht_step t o = Err e
+  end.
+Proof.
+  intros R Hle Hnd. destruct o as [h v|h v|h v|h v|h v|h v|]; cbn [a_nstep nht_step]; try discriminate.
+  - apply (nht_insert_step_sim t cs fl true h v R Hle).
+  - apply (nht_insert_step_sim t cs fl false h v R Hle).
+  - pose proof (lyht_remove_sim N 0 nveq t cs fl h v R) as Hs.
+    destruct (a_remove nveq (abs 0 t cs) h v) as [[c m']|e]; cbn [msim bind] in *.
+    + destruct Hs as (t' & cs' & fl' & -> & R' & A'). cbn [bind fst snd]. exists t', cs', fl'. auto.
+    + rewrite Hs. reflexivity.
+  - rewrite (lyht_find_sim N 0 nveq t cs fl h v R). cbn [bind].
+    destruct (a_lyht_find nveq (abs 0 t cs) h v) as [c ov]. cbn [fst snd]. exists t, cs, fl. auto.
+  - rewrite (lyht_find_next_sim N 0 nveq t cs fl None h v R). cbn [bind].
+    destruct (a_find_next nveq (abs 0 t cs) None h v) as [c ov]. cbn [fst snd]. exists t, cs, fl. auto.
+  - rewrite (lyht_find_next_sim N 0 nveq t cs fl (Some ncol) h v R). cbn [bind].
+    destruct (a_find_next nveq (abs 0 t cs) (Some ncol) h v) as [c ov]. cbn [fst snd]. exists t, cs, fl. auto.
+Qed.
+
+(* size bookkeeping: after n operations on a table that started with at most n0 records the
+   table has at most 4 * (n0 + n) records, so that used * 100 never wraps *)
+Definition Bnd (m : amm N) (n : N) : Prop := a_used m <= n /\ a_size m <= 4 * n.
+
+Lemma a_nstep_bnd m o n : AShape m -> a_rz m <= 2 -> Bnd m n -> 4 * n <= 16777216 ->
+  match a_nstep m o with
+  | Ok (x, m') => AShape m' /\ a_rz m' <= 2 /\ Bnd m' (n + 1)
+  | Err e => e = E_ABORT
+  end.
+Proof.
+  intros S Hrz [Hu Hs] Hn.
+  assert (Hins : forall check h v,
+    match bind (a_insert nveq m check true h v) (fun x => Ok (fst (fst x), Some (snd (fst x)), snd x)) with
+    | Ok (x, m') => AShape m' /\ a_rz m' <= 2 /\ Bnd m' (n + 1)
+    | Err e => e = E_ABORT
+    end).
+  { intros check h v. pose proof (a_insert_shape N nveq m check true h v S ltac:(lia) Hrz) as H.
+    destruct (a_insert nveq m check true h v) as [[[c mv] m']|e]; cbn [bind fst snd].
+    - destruct H as (S' & Hrz' & H). split; [exact S'|]. split.
+      { destruct Hrz' as [->|[_ ->]]; lia. }
+      unfold Bnd. destruct H as [(_ & -> & _)|(_ & _ & Hu' & _ & Hsz' & _)]; [lia|].
+      destruct Hsz' as [->|[-> H75]]; lia.
+    - tauto. }
+  destruct o as [h v|h v|h v|h v|h v|h v|]; cbn [a_nstep]; [apply Hins|apply Hins| | | | |reflexivity].
+  - pose proof (a_remove_shape N nveq m h v S ltac:(unfold no_wrap; lia)) as H.
+    destruct (a_remove nveq m h v) as [[c m']|e]; cbn [bind fst snd].
+    + destruct H as (S' & Hrz' & H). split; [exact S'|]. split.
+      { destruct Hrz' as [->|[_ ->]]; lia. }
+      unfold Bnd. destruct H as [(_ & -> & _)|(_ & Hu' & Hsz' & _)]; lia.
+    + tauto.
+  - split; [exact S|]. split; [exact Hrz|]. unfold Bnd. lia.
+  - split; [exact S|]. split; [exact Hrz|]. unfold Bnd. lia.
+  - split; [exact S|]. split; [exact Hrz|]. unfold Bnd. lia.
+Qed.
+
+Theorem nht_run_sim : forall ops t cs fl acc n,
+  Rep 0 t cs fl -> ht_resize t <= 2 -> Bnd (abs 0 t cs) n ->
+  4 * (n + N.of_nat (length ops)) <= 16777216 -> forallb not_dup ops = true ->
+  match a_nrun (abs 0 t cs) ops acc with
+  | (outs, Ok m') => exists t' cs' fl', nht_run t ops acc = (outs, Ok t') /\ Rep 0 t' cs' fl' /\ abs 0 t' cs' = m'
+  | (outs, Err e) => nht_run t ops acc = (outs, Err e) /\ e = E_ABORT
+  end.
+Proof.
+  induction ops as [|o ops IH]; intros t cs fl acc n R Hrz HB Hn Hnd; cbn [a_nrun nht_run].
+  - exists t, cs, fl. auto.
+  - cbn [forallb length] in *. apply andb_true_iff in Hnd. destruct Hnd as [Ho Hnd].
+    pose proof (Rep_AShape N 0 nveq t cs fl R) as S.
+    assert (Hle : ht_size t <= 1073741824).
+    { destruct HB as [_ HB]. rewrite (abs_size N 0 nveq _ _ _ R) in HB. lia. }
+    pose proof (nht_step_sim t cs fl o R Hle Ho) as Hs.
+    pose proof (a_nstep_bnd (abs 0 t cs) o n S Hrz HB ltac:(lia)) as Hb.
+    destruct (a_nstep (abs 0 t cs) o) as [[x m']|e].
+    + destruct Hs as (t' & cs' & fl' & -> & R' & A'). cbn [fst snd].
+      destruct Hb as (S' & Hrz' & HB'). rewrite <- A' in Hrz', HB' |- *.
+      apply (IH t' cs' fl' (x :: acc) (n + 1) R' Hrz' HB'); [lia|exact Hnd].
+    + rewrite Hs. auto.
+Qed.
+
+(* ---- lyht_new ---- *)
+Lemma is_pow2_pow k : is_pow2 (2 ^ k) = true.
+Proof.
+  unfold is_pow2. assert (H : 2 ^ k <> 0) by (apply N.pow_nonzero; lia).
+  apply N.eqb_neq in H. rewrite H. cbn [negb andb].
+  rewrite N.sub_1_r, <- N.ones_equiv, N.land_ones, N.mod_same by (apply N.pow_nonzero; lia). reflexivity.
+Qed.
+
+Definition new_sz (k : N) : N := if 2 ^ k <? LYHT_MIN_SIZE then LYHT_MIN_SIZE else 2 ^ k.
+
+Lemma new_sz_ok k : k <= 31 -> size_ok (new_sz k).
+Proof.
+  intro Hk. unfold new_sz, size_ok, LYHT_MIN_SIZE. destruct (2 ^ k <? 8) eqn:E.
+  - split; [|lia]. exists 3. split; [lia|reflexivity].
+  - apply N.ltb_ge in E. split; [|exact E]. exists k. auto.
+Qed.
+
+Lemma lyht_new_Rep {V} (vdef : V) (veq : bool -> V -> V -> bool) k rz : k <= 31 -> rz <= 1 ->
+  lyht_new vdef (2 ^ k) rz = Ok (init_tab vdef (new_sz k) rz) /\
+  Rep vdef (init_tab vdef (new_sz k) rz) (repeat [] (N.to_nat (new_sz k)))
+      (map N.of_nat (seq 0 (N.to_nat (new_sz k)))) /\
+  abs vdef (init_tab vdef (new_sz k) rz) (repeat [] (N.to_nat (new_sz k))) =
+    mkamm rz (repeat [] (N.to_nat (new_sz k))).
+Proof.
+  intros Hk Hrz. split.
+  - unfold lyht_new. rewrite is_pow2_pow. cbn [negb].
+    assert (E : (rz =? 0) || (rz =? 1) = true).
+    { destruct (N.eq_dec rz 0) as [->|H0]; [reflexivity|]. assert (rz = 1) by lia. subst. reflexivity. }
+    rewrite E. reflexivity.
+  - apply (init_tab_Rep V vdef veq). now apply new_sz_ok.
+Qed.
+
+(* ---- sequences of checked operations (insert, remove, find, find_next) with resizing enabled
+        never stop: no assertion of hash_table.c can fail ---- *)
+Notation nADist := (@ADist N N (fun x : N => x)).
+
+Lemma a_nstep_checked m o n : AShape m -> LF m -> nADist m -> Bnd m n -> 4 * n <= 16777216 ->
+  checked_op o = true ->
+  exists x m', a_nstep m o = Ok (x, m') /\ AShape m' /\ LF m' /\ nADist m' /\ Bnd m' (n + 1).
+Proof.
+  intros S Hlf Hd HB Hn Hc.
+  assert (Hrz : a_rz m <= 2) by (destruct Hlf; lia).
+  pose proof (a_nstep_bnd m o n S Hrz HB Hn) as Hb.
+  destruct o as [h v|h v|h v|h v|h v|h v|]; cbn [a_nstep checked_op] in *; try discriminate.
+  - destruct HB as [HBu HBs].
+    destruct (a_insert_keyed N nveq N (fun x => x) nveq_key m true h v S ltac:(lia) Hlf Hd)
+      as (c & m' & E & S' & Hlf' & Hd' & _).
+    rewrite E in Hb |- *. cbn [bind fst snd] in *. destruct Hb as (_ & _ & HB'). eauto 8.
+  - destruct HB as [HBu HBs].
+    destruct (a_remove_keyed N nveq N (fun x => x) nveq_key m h v S ltac:(unfold no_wrap; lia) Hlf Hd)
+      as (c & m' & E & S' & Hlf' & Hd' & _).
+    rewrite E in Hb |- *. cbn [bind fst snd] in *. destruct Hb as (_ & _ & HB'). eauto 8.
+  - destruct Hb as (_ & _ & HB'). eauto 8.
+  - destruct Hb as (_ & _ & HB'). eauto 8.
+  - destruct Hb as (_ & _ & HB'). eauto 8.
+Qed.
+
+Theorem a_nrun_checked_total : forall ops m acc n,
+  AShape m -> LF m -> nADist m -> Bnd m n -> 4 * (n + N.of_nat (length ops)) <= 16777216 ->
+  forallb checked_op ops = true ->
+  exists outs m', a_nrun m ops acc = (outs, Ok m') /\ AShape m' /\ LF m' /\ nADist m'.
+Proof.
+  induction ops as [|o ops IH]; intros m acc n S Hlf Hd HB Hn Hc; cbn [a_nrun].
+  - eauto 8.
+  - cbn [forallb length] in *. apply andb_true_iff in Hc. destruct Hc as [Ho Hc].
+    destruct (a_nstep_checked m o n S Hlf Hd HB ltac:(lia) Ho) as (x & m' & -> & S' & Hlf' & Hd' & HB').
+    cbn [fst snd]. apply (IH m' (x :: acc) (n + 1)); auto. lia.
+Qed.
+
+Lemma checked_not_dup ops : forallb checked_op ops = true -> forallb not_dup ops = true.
+Proof.
+  induction ops as [|o ops IH]; cbn; [reflexivity|]. intro H. apply andb_true_iff in H. destruct H as [Ho H].
+  rewrite (IH H), andb_true_r. now destruct o.
+Qed.
+
+(* ---- lyht_dup() does not copy first_free_rec: an insert into the duplicate reuses record 0.
+        The value inserted before the dup is lost and record 0 is in two chains. ---- *)
+Lemma nht_dup_breaks_table :
+  fst (nht_run (init_tab 0 8 1) [OpIns 1 1; OpDup; OpIns 2 2; OpFind 1 1] [])
+    = [(LY_ERR_SUCCESS, Some 1); (LY_ERR_SUCCESS, None); (LY_ERR_SUCCESS, Some 2); (LY_ERR_ENOTFOUND, None)] /\
+  snd (nht_run (init_tab 0 8 1) [OpIns 1 1; OpDup; OpIns 2 2; OpIns 3 3] []) = Err E_ABORT.
+Proof. split; vm_compute; reflexivity. Qed.
